@@ -471,6 +471,8 @@ Fixpoint shiftable_r (t : tok) : bool :=
   | THarmonyBegin | THarmonyEnd _ _ _ | TChannel _ | TVoice _ | TKeyFlag _ | TKeyShift _ | TTrackKey _ | TComment
   | TTimeSignature _ | TMeasureShift _ | TTempo _ | TVAdd _ | TQAdd _ | TTieMode _
   | TCC _ _ | TPitchBend _ _ | TRpnCmd _ _ _ _ | TRpnDirect _ _
+  | TMetaText _ _ | TPort _ | TTempoChange _ _ | TSysEx _ _ | TSysexReset _ | TSysExCommand _ _ | TGSEffect _ _ _
+  | TDeviceNumber _
   | TRandom _ _ | TOnNote _ _ _ | TVOnTime _ | TCCOnTime _ _ | TCCOnNote _ _ | TCCOnNoteWave _ _ | TCCFreq _
   | TPBOnTime _ _ | TDecresc _ _ _ => true
   | _ => false
@@ -549,6 +551,60 @@ Qed.
 
 Lemma add_log_put L h t' s m : add_log (put L h t' s) m = put L h t' (add_log s m).
 Proof. unfold add_log. change (s_logs (put L h t' s)) with (s_logs s). destruct (_ <=? _); reflexivity. Qed.
+
+(* ---- TempoChange: every step of the ramp keeps the translation (as TimeP.shifted_exec_tempo_change; the arm writes
+   tempo events from the pointer on and puts the pointer back - it never looks at the reservations) ---- *)
+Lemma shifted_r_tempo_change L n s s' v : shifted_r L n s s' -> shifted_r L n (tempo_change s v) (tempo_change s' v).
+Proof.
+  intros H. destruct (shifted_r_elim L n s s' H) as (Hc & h & t' & Hr & -> & Hh). unfold tempo_change.
+  rewrite (cur_track_put L h t' s Hc). destruct (trk_rel_fields L n _ _ Hr) as (-> & _).
+  set (G := fun x : song => s_set_time x v (s_timesig_frac x) (s_timesig_deno x) (s_measure_shift x)).
+  change (s_set_time (put L h t' s) v (s_timesig_frac (put L h t' s)) (s_timesig_deno (put L h t' s)) (s_measure_shift (put L h t' s)))
+    with (put L h t' (G s)).
+  change (s_set_time s v (s_timesig_frac s) (s_timesig_deno s) (s_measure_shift s)) with (G s).
+  apply (arm_upd L n h t' (G s)); [exact Hc|exact Hh|]. change (cur_track (G s)) with (cur_track s).
+  apply (trk_rel_push_event L n). exact Hr.
+Qed.
+Lemma shifted_r_move L n s s' d : shifted_r L n s s' ->
+  shifted_r L n (upd_cur s (fun t => tr_set_timepos t (tr_timepos t + d))) (upd_cur s' (fun t => tr_set_timepos t (tr_timepos t + d))).
+Proof.
+  intros H. destruct (shifted_r_elim L n s s' H) as (Hc & h & t' & Hr & -> & Hh).
+  apply arm_upd; [exact Hc|exact Hh|]. apply trk_rel_add_timepos. exact Hr.
+Qed.
+Lemma shifted_r_set_pos L n s s' p : shifted_r L n s s' ->
+  shifted_r L n (upd_cur s (fun t => tr_set_timepos t p)) (upd_cur s' (fun t => tr_set_timepos t (p + L))).
+Proof.
+  intros H. destruct (shifted_r_elim L n s s' H) as (Hc & h & t' & Hr & -> & Hh).
+  apply arm_upd; [exact Hc|exact Hh|]. apply trk_rel_set_timepos. exact Hr.
+Qed.
+Lemma shifted_r_ramp_loop L n a w st cnt : forall idx s s', shifted_r L n s s' ->
+  shifted_r L n (tempo_ramp_loop s a w st cnt idx) (tempo_ramp_loop s' a w st cnt idx).
+Proof.
+  induction idx as [|i r IH]; intros s s' H; [exact H|]. cbn [tempo_ramp_loop].
+  apply IH, shifted_r_move, shifted_r_tempo_change, H.
+Qed.
+Lemma shifted_r_pos L n s s' : shifted_r L n s s' -> tr_timepos (cur_track s') = tr_timepos (cur_track s) + L.
+Proof.
+  intros H. destruct (shifted_r_elim L n s s' H) as (Hc & h & t' & Hr & -> & Hh).
+  rewrite (cur_track_put L h t' s Hc). destruct (trk_rel_fields L n _ _ Hr) as (-> & _). reflexivity.
+Qed.
+Lemma shifted_r_globals L n s s' : shifted_r L n s s' -> s_timebase s' = s_timebase s /\ s_tempo s' = s_tempo s.
+Proof. intros (_ & _ & _ & h & st & -> & _). split; reflexivity. Qed.
+Lemma shifted_r_a_to_b L n s s' a b len : shifted_r L n s s' ->
+  shifted_r_res L n (tempo_change_a_to_b s a b len) (tempo_change_a_to_b s' a b len).
+Proof.
+  intros H. unfold tempo_change_a_to_b. destruct (shifted_r_globals L n s s' H) as [-> _]. rewrite (shifted_r_pos L n s s' H).
+  destruct (_ =? 0); [reflexivity|]. destruct (RAMP_MAX <? len); [reflexivity|].
+  cbn [shifted_r_res].
+  replace (tr_timepos (cur_track s) + L + len) with (tr_timepos (cur_track s) + len + L) by lia.
+  apply shifted_r_set_pos, shifted_r_tempo_change, shifted_r_set_pos, shifted_r_ramp_loop, H.
+Qed.
+Lemma shifted_r_exec_tempo_change L n s s' a rest : shifted_r L n s s' ->
+  shifted_r_res L n (exec_tempo_change s a rest) (exec_tempo_change s' a rest).
+Proof.
+  intros H. unfold exec_tempo_change. destruct (shifted_r_globals L n s s' H) as [_ ->].
+  destruct rest as [|b [|len [|x r]]]; try (apply shifted_r_a_to_b, H); cbn [shifted_r_res]; apply shifted_r_tempo_change, H.
+Qed.
 
 Section StepShiftR.
   Variables (L : Z) (n : nat).
@@ -639,6 +695,16 @@ Section StepShiftR.
   Qed.
 
   (* commands that add events at the pointer of the current track *)
+  Lemma add_events_rel_gen (s2 : song) h2 t2' f g :
+    cur_valid s2 -> rel (cur_track s2) t2' -> (s_harmony_flag s2 = true -> h2 = s_harmony_time s2 + L) ->
+    g (tr_timepos (cur_track s2) + L) (tr_channel (cur_track s2))
+      = map (shift_ev L) (f (tr_timepos (cur_track s2)) (tr_channel (cur_track s2))) ->
+    shifted_r L n (add_events s2 f) (add_events (put L h2 t2' s2) g).
+  Proof.
+    intros Hc2 Hr2 Hh2 Hf. rewrite !add_events_eq, (cur_track_put L h2 t2' s2 Hc2).
+    destruct (trk_rel_fields L n _ _ Hr2) as (-> & -> & _). rewrite Hf.
+    apply arm_upd; [exact Hc2|exact Hh2|]. apply trk_rel_push_events. exact Hr2.
+  Qed.
   Lemma add_events_rel (s2 : song) h2 t2' f :
     cur_valid s2 -> rel (cur_track s2) t2' -> (s_harmony_flag s2 = true -> h2 = s_harmony_time s2 + L) ->
     (forall tp ch, f (tp + L) ch = map (shift_ev L) (f tp ch)) ->
@@ -879,6 +945,21 @@ Section StepShiftR.
     - (* TDecresc *) rewrite ctp, Elen. change (s_timebase s') with (s_timebase s).
       destruct (RAMP_MAX <? _); [reflexivity|]. cbn [shifted_r_res].
       apply arm_upd; [exact Hc|exact Hh|]. apply cc_on_time_plain_rel. exact Hr.
+    - (* TMetaText *) destruct (_ && _); [|reflexivity]. cbn [shifted_r_res].
+      apply add_events_rel; [exact Hc|exact Hr|exact Hh|reflexivity].
+    - (* TPort *) apply add_events_rel; [exact Hc|exact Hr|exact Hh|reflexivity].
+    - (* TTempoChange *) apply shifted_r_exec_tempo_change. exact same_ok.
+    - (* TSysEx *) unfold exec_sysex, runtime_error. change (s_lineno s') with (s_lineno s).
+      destruct args as [|a0 ar]; [apply add_log_ok|]. destruct (SYSEX_MAX <? _); [reflexivity|]. cbn [shifted_r_res].
+      apply add_events_rel; [exact Hc|exact Hr|exact Hh|]. intros tp _. apply cmd_sysex_shift.
+    - (* TSysexReset *) change (s_device s') with (s_device s).
+      apply add_events_rel; [exact Hc|exact Hr|exact Hh|]. intros tp _. apply cmd_sysex_reset_shift.
+    - (* TSysExCommand *) apply add_events_rel; [exact Hc|exact Hr|exact Hh|]. intros tp _. apply cmd_sysex_command_shift.
+    - (* TGSEffect *) unfold exec_gs_effect. rewrite ctp, Etp, Ech. change (s_device s') with (s_device s).
+      rewrite cmd_gs_effect_shift.
+      destruct (Cmd.cmd_gs_effect _ _ _ _ _) as [evs| | |]; cbn [map_res bind shifted_r_res]; try reflexivity.
+      apply add_events_rel_gen; [exact Hc|exact Hr|exact Hh|reflexivity].
+    - (* TDeviceNumber *) apply (glob_ok (s_set_device s (as_u8 (nth 0 args 0)))); try reflexivity; exact Hc.
   Qed.
   End One.
 End StepShiftR.
